@@ -76,6 +76,9 @@ def run(rep: Report, tier: str) -> None:
     rep.rule("R20.1", "the two validators perform the same rejecting checks; duplicates are checked on cast values")
     loaded_table_checks_on_every_path(P, rep, "R20.1")
     integer_csv_guard(P, rep, "R20.3")
+    rep.rule("R20.6", "run-side validation queries examine every row (validate_dataset checks every value): no LIMIT inside a derived table that the outer query filters")
+    from sa.checks.c19 import limit_before_filter
+    limit_before_filter(P, rep, "R20.6")
     # ---- R20.5 the pandas-side validator re-reads what it is given: nothing on its path is memoised on a path / name while reading content ----
     rep.rule("R20.5", "validate_dataset side: no memoised function on the file-parsing path whose answer depends on file content, the environment or process state")
     from sa import globalsx as _gx
